@@ -2,7 +2,8 @@
 from . import common as C
 from .framework import Tie
 
-LABELS = ['foo', 'bar', 'MAX_N', '_priv', '.loc', 'zz9', 'count', 'Ptr', 'hello_world', 'x1']
+# (names that would be numbers if letter case were ignored -- hex digits + h, B + binary digits -- are ordinary labels)
+LABELS = ['foo', 'bar', 'MAX_N', '_priv', '.loc', 'zz9', 'count', 'Ptr', 'hello_world', 'x1', 'ah', 'each', 'B1', 'beach']
 HOSTILE = ['b10', 'beH', 'face', 'B101', 'abh', 'BYTES', 'BYTE5x', 'LSBx', 'e1', 'deadH', '__bad', 'a']
 OPS = {'&': 0, '|': 0, '^': 0, '<<': 1, '>>': 1, '+': 2, '-': 2, '*': 3, '/': 3, '%': 3}
 
